@@ -20,6 +20,7 @@ class Store:
         self.lock = threading.Lock()
         self.hook = None  # callable(event_tuple) called BEFORE the operation takes effect
         self.recording = True
+        self.fail_reads = 0  # the next n reads raise OSError(EIO) (transient I/O error)
 
     # --- content -------------------------------------------------------------------
     def put_product(self, name, files):
@@ -63,6 +64,10 @@ STORE = Store()
 
 
 class TracedFile(io.RawIOBase):
+    # fsspec's buffered / local file objects advertise a block size; a small one here means that
+    # every realistic read request of the library is larger than a block
+    blocksize = 64
+
     def __init__(self, store, path, data):
         super().__init__()
         self.store = store
@@ -104,6 +109,9 @@ class TracedFile(io.RawIOBase):
         return chunk
 
     def _read_now(self, size):
+        if self.store.fail_reads > 0:
+            self.store.fail_reads -= 1
+            raise OSError(5, "injected transient read error", self.path)
         pos = self.pos
         chunk = self.data[pos: pos + size]
         self.pos = pos + len(chunk)
